@@ -2,7 +2,7 @@ from harness.props import base
 from harness import preds
 from harness import impl, streams
 LEVEL = 'proof'
-VFILES = ['Engine.v', 'LL1.v', 'LL1Inst.v', 'LL1Engine.v', 'EngineSound.v', 'Properties/C05.v']
+VFILES = ['Engine.v', 'LL1.v', 'LL1Inst.v', 'LL1Engine.v', 'EngineSound.v', 'EngineConfine.v', 'Properties/C05.v']
 TECHNIQUE = ('Coq soundness proof of the plan-driven LL(1) engine (invariant: every stack frame holds derivations that drive its rule automaton; verified boolean '
              'checkers over the regenerated tables, one vm_compute obligation per grammar) + refinement to the extracted Engine model + parse/plans correspondence '
              '+ conformance predicate search on implementation trees')
@@ -10,9 +10,10 @@ EXPLANATION = ('Proved for every shipped grammar (gen/LL1_<v>.v: tables_sound_ok
                '(Properties/C05.v): whatever the strict parser of the Engine model accepts without the missing-newline repair is convert_node of the collapsed form of a '
                'derivation d with wf d (every node names a rule, is non-empty and its children drive that rule\'s automaton from start to a final state) and yield d = the '
                'token word; the strict parser returns the same tree, and (C07) so does the recovering one. With the C08 obligations (automata = EBNF rules) each node is a '
-               'complete instance of its rule; single-child collapse and the suite / parameter conventions are `collapse` / `convert_node`. C05_partial: runs using the '
-               'missing-newline repair and the confinement of error nodes/leaves in recovering mode are decided by the conformance predicate (DESIGN.md C05 conventions) '
-               'on implementation trees and by the parse correspondence.')
+               'complete instance of its rule; single-child collapse and the suite / parameter conventions are `collapse` / `convert_node`. Error confinement (EngineConfine.errors_confined, C05_errors_confined_<v>): in every tree the engine returns, strict or recovering, for any token list, an error node / '
+               'error leaf is a child only of a node whose rule is in the holder set computed from the regenerated automata (file_input, suite, stmt, compound_stmt and the compound '
+               'statements - no expression, no simple statement) or of another error node; param nodes never hold one. C05_partial: conformance of the non-error nodes of recovered trees and of runs using the '
+               'missing-newline repair is decided by the conformance predicate (DESIGN.md C05 conventions) on implementation trees and by the parse correspondence.')
 LEVEL_TEXT = EXPLANATION
 
 
